@@ -3,7 +3,7 @@
 checks against it: every check must exit 0 (no false alarm). Prints one line per (patch, check)."""
 import os, subprocess, sys, tempfile, shutil, glob
 VERIF = os.path.dirname(os.path.dirname(os.path.abspath(__file__)))
-CHECKS = os.environ.get("BENIGN_CHECKS", "C01 C02 C03 C04 C05 C06 C07 C08 C13 C15 C17").split()
+CHECKS = os.environ.get("BENIGN_CHECKS", "C01 C02 C03 C04 C05 C06 C07 C08 C13 C15 C16 C17 C19 C20").split()
 patches = sys.argv[1:] or sorted(glob.glob(os.path.join(VERIF, "benign", "*.diff")))
 bad = 0
 for p in patches:
